@@ -88,6 +88,8 @@ fn main() {
                 for _ in 0..(1 + r.below(3)) { let i = r.below(m as u64) as usize; ws[i] = [50.0, 1000.0, 1.0e6][r.below(3) as usize]; }
                 if r.below(2) == 0 { let i = r.below(m as u64) as usize; let j = r.below(m as u64) as usize; pts[j] = pts[i].wrapping_add(r.below(3)); }
             }
+            let scale: f64 = std::env::var("WQ_SCALE").ok().and_then(|x| x.parse().ok()).unwrap_or(1.0);
+            let ws: Vec<f64> = ws.iter().map(|w| w * scale).collect();
             *c2.lock().unwrap() = format!("pts={:?} ws={:?} n={}", pts, ws, n);
             let s = coupe::verif_hilbert::weighted_quantiles_u64(&pts, &ws, n);
             if s.windows(2).any(|w| w[0] > w[1]) { u2.fetch_add(1, Ordering::Relaxed); }
